@@ -433,26 +433,30 @@ theorem lastMaxGo_mem (cmp : Str → Str → Int) (best : Str) (l : List Str) :
       · simp
     · exact Or.inr (List.mem_cons_of_mem _ h)
 
-theorem lastMaxGo_max {cmp : Str → Str → Int} (g : GoodOrd cmp) (best : Str) (l : List Str) :
+theorem lastMaxGo_max {P : Str → Prop} {cmp : Str → Str → Int} (g : GoodOrdOn P cmp) (best : Str) (l : List Str)
+    (hb : P best) (hl : ∀ x ∈ l, P x) :
+    P (lastMaxGo cmp best l) ∧
     cmp best (lastMaxGo cmp best l) ≤ 0 ∧ ∀ x ∈ l, cmp x (lastMaxGo cmp best l) ≤ 0 := by
   induction l generalizing best with
-  | nil => simp [lastMaxGo, g.refl]
+  | nil => simp [lastMaxGo, g.refl best hb, hb]
   | cons v vs ih =>
+    have hv0 : P v := hl v (by simp)
+    have hvs : ∀ x ∈ vs, P x := fun x hx => hl x (List.mem_cons_of_mem _ hx)
     simp only [lastMaxGo]
     by_cases hv : 0 ≤ cmp v best
     · simp only [hv, if_true]
-      obtain ⟨h1, h2⟩ := ih v
-      refine ⟨g.trans _ _ _ (g.flip _ _ hv) h1, ?_⟩
+      obtain ⟨hp, h1, h2⟩ := ih v hv0 hvs
+      refine ⟨hp, g.trans _ _ _ hb hv0 hp (g.flip _ _ hv0 hb hv) h1, ?_⟩
       intro x hx
       rcases List.mem_cons.mp hx with rfl | hx
       · exact h1
       · exact h2 x hx
     · simp only [hv, if_false]
-      obtain ⟨h1, h2⟩ := ih best
-      refine ⟨h1, ?_⟩
+      obtain ⟨hp, h1, h2⟩ := ih best hb hvs
+      refine ⟨hp, h1, ?_⟩
       intro x hx
       rcases List.mem_cons.mp hx with rfl | hx
-      · exact g.trans _ _ _ (by omega) h1
+      · exact g.trans _ _ _ hv0 hb hp (by omega) h1
       · exact h2 x hx
 
 theorem lastMax_some_iff (cmp : Str → Str → Int) (l : List Str) : (lastMax cmp l).isSome ↔ l ≠ [] := by
@@ -468,18 +472,25 @@ theorem lastMax_mem {cmp : Str → Str → Int} {l : List Str} {m : Str} (h : la
     · rw [h]; simp
     · exact List.mem_cons_of_mem _ h
 
-theorem lastMax_max {cmp : Str → Str → Int} (g : GoodOrd cmp) {l : List Str} {m : Str}
-    (h : lastMax cmp l = some m) : ∀ x ∈ l, cmp x m ≤ 0 := by
+theorem lastMax_max {P : Str → Prop} {cmp : Str → Str → Int} (g : GoodOrdOn P cmp) {l : List Str} {m : Str}
+    (h : lastMax cmp l = some m) (hl : ∀ x ∈ l, P x) : ∀ x ∈ l, cmp x m ≤ 0 := by
   cases l with
   | nil => simp [lastMax] at h
   | cons v vs =>
     simp only [lastMax, Option.some.injEq] at h
     subst h
-    obtain ⟨h1, h2⟩ := lastMaxGo_max g v vs
+    obtain ⟨_, h1, h2⟩ := lastMaxGo_max g v vs (hl v (by simp)) (fun x hx => hl x (List.mem_cons_of_mem _ hx))
     intro x hx
     rcases List.mem_cons.mp hx with rfl | hx
     · exact h1
     · exact h2 x hx
+
+/-- a declared version is one of the database's version names -/
+theorem declIn_of_declared {P : Str → Prop} {db : Db} (hP : DeclIn P db) {st : Stack} (hst : st ∈ db)
+    {n v f : Str} (hd : declared st n v f = true) : P v := by
+  simp only [declared, List.any_eq_true, Bool.and_eq_true, beq_iff_eq] at hd
+  obtain ⟨d, hdm, ⟨_, hv⟩, _⟩ := hd
+  exact hv ▸ hP st hst d hdm
 
 /-! ## expression candidates -/
 
@@ -725,8 +736,8 @@ theorem selectLatest_none {cmp : Str → Str → Int} {f : Str} {cands : List (N
 
 /-- what the expression lookup returns: a satisfying version, from the first stack in which it
 satisfies, and no satisfying version anywhere on the path is newer -/
-theorem lookupExpr_some {o : Ord} (g : GoodOrd o.cmp) {db : Db} {n f x : Str} {p : Prod}
-    (h : lookupExpr o db n f x = some p) :
+theorem lookupExpr_some {P : Str → Prop} {o : Ord} (g : GoodOrdOn P o.cmp) {db : Db} (hP : DeclIn P db)
+    {n f x : Str} {p : Prod} (h : lookupExpr o db n f x = some p) :
     p.flavor = f ∧
     (∃ st, db[p.stack]? = some st ∧ satisfies o.vmatch st n f x p.version ∧
         ∀ j st', j < p.stack → db[j]? = some st' → ¬ satisfies o.vmatch st' n f x p.version) ∧
@@ -742,7 +753,11 @@ theorem lookupExpr_some {o : Ord} (g : GoodOrd o.cmp) {db : Db} {n f x : Str} {p
     have := hmin k st' hk hget
     rw [(satisfiesB_iff ..).mpr hs] at this
     cases this
-  exact lastMax_max g h3 w (List.mem_map.mpr ⟨(i, w), hc, rfl⟩)
+  refine lastMax_max g h3 ?_ w (List.mem_map.mpr ⟨(i, w), hc, rfl⟩)
+  intro y hy
+  obtain ⟨c, hcm, rfl⟩ := List.mem_map.mp hy
+  obtain ⟨stc, hgc, hsc, _⟩ := (mem_exprCands ..).mp hcm
+  exact declIn_of_declared hP (List.mem_of_getElem? hgc) hsc.1
 
 theorem lookupExpr_none {o : Ord} {db : Db} {n f x : Str} (h : lookupExpr o db n f x = none) :
     ∀ st ∈ db, ∀ w, ¬ satisfies o.vmatch st n f x w := by
@@ -945,8 +960,23 @@ def AgreeAt (f : Str) (st st' : Stack) : Prop :=
 
 theorem agreeAt_refl (f : Str) (st : Stack) : AgreeAt f st st := ⟨rfl, rfl⟩
 
-theorem agreeAt_restrict (f : Str) (st : Stack) : AgreeAt f (restrictStack f st) st := by
-  constructor <;> simp [restrictStack, List.filter_filter]
+theorem agreeAt_restrict {f : Str} {loaded : List Str} (hf : f ∈ loaded) (st : Stack) :
+    AgreeAt f (restrictStack loaded st) st := by
+  constructor
+  · simp only [restrictStack, List.filter_filter]
+    congr 1
+    funext d
+    by_cases hd : (d.flavor == f) = true
+    · have : d.flavor = f := by simpa using hd
+      simp [this, hf]
+    · simp [hd]
+  · simp only [restrictStack, List.filter_filter]
+    congr 1
+    funext t
+    by_cases hd : (t.flavor == f) = true
+    · have : t.flavor = f := by simpa using hd
+      simp [this, hf]
+    · simp [hd]
 
 theorem any_filter_irrelevant {α : Type} (l : List α) (q p : α → Bool) (h : ∀ x, p x = true → q x = true) :
     l.any p = (l.filter q).any p := by
@@ -1099,9 +1129,10 @@ theorem find_view_congr {C C' : Ctx} {r : Req} (ho : C.ord = C'.ord) (hg : C.glo
     find C r vro = find C' r vro := by
   simp only [find, walk_view_congr ho hg hdb hdl]
 
-/-- the cache view of a database agrees with the database on the native flavor, whatever was accepted -/
-theorem cacheView_agree_native (native : Str) (accepted : List Bool) (db : Db) :
-    ViewsAgree native (cacheView native accepted db) db := by
+/-- the cache view of a database agrees with the database on every flavor the process loads,
+whatever was accepted -/
+theorem cacheView_agree {f : Str} {loaded : List Str} (hf : f ∈ loaded) (accepted : List Bool) (db : Db) :
+    ViewsAgree f (cacheView loaded accepted db) db := by
   induction db generalizing accepted with
   | nil => cases accepted <;> exact .nil
   | cons st rest ih =>
@@ -1114,10 +1145,10 @@ theorem cacheView_agree_native (native : Str) (accepted : List Bool) (db : Db) :
       refine .cons ?_ (ih as)
       cases a
       · exact agreeAt_refl _ _
-      · exact agreeAt_restrict _ _
+      · exact agreeAt_restrict hf _
 
 /-- when no stack's cache was accepted the cache view is the database -/
-theorem cacheView_all_rebuilt (native : Str) (accepted : List Bool) (db : Db)
+theorem cacheView_all_rebuilt (native : List Str) (accepted : List Bool) (db : Db)
     (h : ∀ b ∈ accepted, b = false) : cacheView native accepted db = db := by
   induction db generalizing accepted with
   | nil => cases accepted <;> simp [cacheView]
@@ -1360,8 +1391,8 @@ def LatestInv (cmp : Str → Str → Int) (full : Db) (n f : Str) (i : Nat) (out
     ∀ (j : Nat) (st : Stack) (w : Str), j < i → full[j]? = some st → declared st n w f = true →
       cmp w o.version ≤ 0
 
-theorem latestGo_inv {cmp : Str → Str → Int} (g : GoodOrd cmp) (full : Db) (n f : Str)
-    (pre rest : Db) (hfull : full = pre ++ rest) (out : Option Prod)
+theorem latestGo_inv {P : Str → Prop} {cmp : Str → Str → Int} (g : GoodOrdOn P cmp) (full : Db) (hP : DeclIn P full)
+    (n f : Str) (pre rest : Db) (hfull : full = pre ++ rest) (out : Option Prod)
     (hinv : LatestInv cmp full n f pre.length out) :
     LatestInv cmp full n f full.length (latestGo cmp n f pre.length out rest) := by
   induction rest generalizing pre out with
@@ -1371,6 +1402,9 @@ theorem latestGo_inv {cmp : Str → Str → Int} (g : GoodOrd cmp) (full : Db) (
     rw [this]; exact hinv
   | cons st rest ih =>
     have hget : full[pre.length]? = some st := by rw [hfull]; simp
+    have hstm : st ∈ full := List.mem_of_getElem? hget
+    have hPd : ∀ {j : Nat} {st' : Stack} {w : Str}, full[j]? = some st' → declared st' n w f = true → P w :=
+      fun hg hd => declIn_of_declared hP (List.mem_of_getElem? hg) hd
     have hfull' : full = (pre ++ [st]) ++ rest := by rw [hfull]; simp
     have hlen : (pre ++ [st]).length = pre.length + 1 := by simp
     simp only [latestGo]
@@ -1407,7 +1441,8 @@ theorem latestGo_inv {cmp : Str → Str → Int} (g : GoodOrd cmp) (full : Db) (
     | some v =>
       have hv : declared st n v f = true := (mem_versionsOf st n f v).mp (lastMax_mem hm)
       have hmax : ∀ w, declared st n w f = true → cmp w v ≤ 0 :=
-        fun w hw => lastMax_max g hm w ((mem_versionsOf st n f w).mpr hw)
+        fun w hw => lastMax_max g hm
+          (fun y hy => declIn_of_declared hP hstm ((mem_versionsOf st n f y).mp hy)) w ((mem_versionsOf st n f w).mpr hw)
       -- the invariant for "v from this stack is the new answer"
       have hnew : (∀ (j : Nat) (st' : Stack) (w : Str), j < pre.length → full[j]? = some st' →
           declared st' n w f = true → cmp w v ≤ 0) →
@@ -1434,7 +1469,9 @@ theorem latestGo_inv {cmp : Str → Str → Int} (g : GoodOrd cmp) (full : Db) (
         · simp only [hgt, if_true]
           have := ih (pre ++ [st]) hfull' _ (hnew (by
             intro j st' w hj hgetj hd
-            exact g.trans _ _ _ (h3 j st' w hj hgetj hd) (g.flip _ _ (by omega))))
+            obtain ⟨sto, hgo, hdo⟩ := h2
+            exact g.trans _ _ _ (hPd hgetj hd) (hPd hgo hdo) (hPd hget hv) (h3 j st' w hj hgetj hd)
+              (g.flip _ _ (hPd hget hv) (hPd hgo hdo) (by omega))))
           rw [hlen] at this
           exact this
         · simp only [hgt, if_false]
@@ -1445,16 +1482,17 @@ theorem latestGo_inv {cmp : Str → Str → Int} (g : GoodOrd cmp) (full : Db) (
             rcases Nat.lt_succ_iff_lt_or_eq.mp hj with hj | hj
             · exact h3 j st' w hj hgetj hd
             · subst hj; rw [hget] at hgetj; cases hgetj
-              exact g.trans _ _ _ (hmax w hd) (by omega))
+              obtain ⟨sto, hgo, hdo⟩ := h2
+              exact g.trans _ _ _ (hPd hget hd) (hPd hget hv) (hPd hgo hdo) (hmax w hd) (by omega))
           rw [hlen] at this
           exact this
 
 /-- `latest`: a declared version such that no declared version anywhere on the path is newer -/
-theorem lookupLatest_some {cmp : Str → Str → Int} (g : GoodOrd cmp) {db : Db} {n f : Str} {p : Prod}
-    (h : lookupLatest cmp db n f = some p) :
+theorem lookupLatest_some {P : Str → Prop} {cmp : Str → Str → Int} (g : GoodOrdOn P cmp) {db : Db}
+    (hP : DeclIn P db) {n f : Str} {p : Prod} (h : lookupLatest cmp db n f = some p) :
     p.flavor = f ∧ (∃ st, db[p.stack]? = some st ∧ declared st n p.version f = true) ∧
     ∀ (j : Nat) (st : Stack) (w : Str), db[j]? = some st → declared st n w f = true → cmp w p.version ≤ 0 := by
-  have := latestGo_inv g db n f [] db rfl none (by intro j st w hj; cases hj)
+  have := latestGo_inv g db hP n f [] db rfl none (by intro j st w hj; cases hj)
   unfold lookupLatest at h
   simp only [List.length_nil] at this
   rw [h] at this
@@ -1469,9 +1507,9 @@ theorem lookupLatest_some {cmp : Str → Str → Int} (g : GoodOrd cmp) {db : Db
       rw [this] at hget; cases hget
   exact h3 j st w hj hget hd
 
-theorem lookupLatest_none {cmp : Str → Str → Int} (g : GoodOrd cmp) {db : Db} {n f : Str}
-    (h : lookupLatest cmp db n f = none) : ∀ st ∈ db, ∀ w, declared st n w f = false := by
-  have := latestGo_inv g db n f [] db rfl none (by intro j st w hj; cases hj)
+theorem lookupLatest_none {P : Str → Prop} {cmp : Str → Str → Int} (g : GoodOrdOn P cmp) {db : Db}
+    (hP : DeclIn P db) {n f : Str} (h : lookupLatest cmp db n f = none) : ∀ st ∈ db, ∀ w, declared st n w f = false := by
+  have := latestGo_inv g db hP n f [] db rfl none (by intro j st w hj; cases hj)
   unfold lookupLatest at h
   simp only [List.length_nil] at this
   rw [h] at this
@@ -1548,11 +1586,37 @@ theorem cmpComps_trans (a b c : List Nat) (h1 : cmpComps a b ≤ 0) (h2 : cmpCom
                 exact ih ys zs h1 h2
 
 theorem simpleCmp_good : GoodOrd simpleCmp where
-  refl a := by simp [simpleCmp, cmpComps_refl]
-  flip a b h := by
+  refl a _ := by simp [simpleCmp, cmpComps_refl]
+  flip a b _ _ h := by
     unfold simpleCmp at h ⊢
     rw [cmpComps_antisymm]
     omega
-  trans a b c h1 h2 := cmpComps_trans _ _ _ h1 h2
+  trans a b c _ _ _ h1 h2 := cmpComps_trans _ _ _ h1 h2
+
+/-! ## the flavor loop through two views -/
+
+theorem resolveFlavor_congr {C C' : Ctx} {r : Req} (keep : Bool)
+    (hfind : ∀ vro, find C r vro = find C' r vro) (fuel : Nat) (vro : List Str) :
+    resolveFlavor C r keep fuel vro = resolveFlavor C' r keep fuel vro := by
+  induction fuel generalizing vro with
+  | zero => rfl
+  | succ fuel ih =>
+    unfold resolveFlavor
+    simp only [hfind, ih]
+
+/-- the flavor loop gives the same answer through two contexts whose views agree on every flavor it visits -/
+theorem resolve_view_congr {C C' : Ctx} (r : Req) (keep : Bool) (vro : List Str) (flavors : List Str)
+    (ho : C.ord = C'.ord) (hg : C.globalTags = C'.globalTags)
+    (hdb : ∀ f ∈ flavors, ViewsAgree f C.db C'.db) (hdl : ∀ f ∈ flavors, ViewsAgree f C.dbLatest C'.dbLatest) :
+    resolve C r keep vro flavors = resolve C' r keep vro flavors := by
+  induction flavors with
+  | nil => rfl
+  | cons fl rest ih =>
+    unfold resolve
+    have hfl : ∀ v, find C { r with flavor := fl } v = find C' { r with flavor := fl } v := by
+      intro v
+      exact find_view_congr (r := { r with flavor := fl }) ho hg (hdb fl (by simp)) (hdl fl (by simp)) v
+    rw [resolveFlavor_congr keep hfl,
+      ih (fun f hf => hdb f (List.mem_cons_of_mem _ hf)) (fun f hf => hdl f (List.mem_cons_of_mem _ hf))]
 
 end EupsModel.Vro
